@@ -6,8 +6,8 @@ driven with recording layers at every position.
 """
 import itertools, json, os, signal, time as _time
 from .. import modelrun
-from ..env import VERIF
-from ..translators import c18_layers
+from ..env import VERIF, REPO
+from ..translators import c18_layers, stack_eval
 
 CASE_TIMEOUT = 5                 # seconds; a case normally takes milliseconds
 
@@ -22,10 +22,17 @@ ASSUME = [
     "onEvent short-circuit, subEmitEvent/subBroadcastEvent, send/receive fan-out, getLayerInterface)",
     "layer behaviour is a parameter of every theorem (arbitrary consumer set, arbitrary one-directional data "
     "handlers); handlers that emit further events or bounce data back are outside the model",
-    "tie: (a) fail-closed ast translator harness/translators/c18_layers.py regenerates the bodies of "
+    "tie: (a) fail-closed translator harness/translators/c18_layers.py regenerates the bodies of "
     "getCoreLayers/getProtocolLayers/getDefaultLayers/getDefaultStack and the tuple constants of "
-    "stacks/__init__.py into coq/Gen/C18Layers.v, theorems re-checked against it; (b) differential "
-    "correspondence of the extracted model with the real classes on exhaustive small and random stack shapes",
+    "stacks/__init__.py into coq/Gen/C18Layers.v, theorems re-checked against it: the ast transcription when the "
+    "source is written in the recognised tuple-building fragment, cross-checked on every selection against the "
+    "table of values the real helpers return (harness/translators/stack_eval.py: 16 module selections, axolotl "
+    "on/off, no top layer / a class / an instance; every value is the first call of a fresh process), otherwise "
+    "decision trees generated from that evaluated table; later calls in one process are compared with the "
+    "first-call values (a difference is reported with the call sequence); (b) differential correspondence of the "
+    "extracted model with the real classes on exhaustive small and random stack shapes",
+    "evaluated-only path: the optional top layer is sampled (None, a YowLayer class, a YowLayer instance), the "
+    "theorems quantify over any top layer; the transcription path covers it symbolically",
     "not modelled: threads (YowLayer.lock in toLower; see C12), the shared class-level queue being common to "
     "all YowStack objects, the 0.1 s sleep of loop(), props / profile handling, the real layers' behaviour",
 ]
@@ -1006,8 +1013,18 @@ def check_builder(ctx, model, info):
 def run(ctx):
     t0 = _time.time()
     with c18_layers.GenLock():
-        info = c18_layers.regenerate(have_lock=True)
-        ctx.ties["translator:c18_layers"] = "ok" if info["ok"] else "broken: " + str(info["error"])
+        info = c18_layers.regenerate(have_lock=True, scratch=ctx.scratch)
+        ctx.ties["translator:c18_layers"] = "ok" if (info["ok"] and not info["tie_problems"]) else \
+            "broken: " + str(info["error"] or info["path"])
+        ctx.coverage["translator_path"] = info["path"]
+        ctx.coverage["helper_evaluation"] = info["eval"]
+        ctx.notes.append("coq/Gen/C18Layers.v produced by: " + info["path"])
+        # a helper whose value depends on earlier calls: concrete call sequence (replayable)
+        for f in info["history_findings"][:3]:
+            ctx.violation("oracle:helper-call-history", f)
+        # the transcription and the evaluated table differ / the evaluation could not run
+        for name, case in info["tie_problems"][:3]:
+            ctx.violation(name, case, found_input=False)
         ctx.prove()
         exe = ctx.build_model("C18")
         model = modelrun.Model(exe) if exe else None
@@ -1020,8 +1037,15 @@ def run(ctx):
     # with a broken translator the generated function table is a stub: only the oracle runs on the
     # helpers, and the broken tie is reported once (below)
     hmodel = model if info["ok"] else None
-    n_eval += check_helpers(ctx, hmodel, info)
-    n_eval += check_builder(ctx, hmodel, info)
+    try:
+        n_eval += check_helpers(ctx, hmodel, info)
+        n_eval += check_builder(ctx, hmodel, info)
+    except Exception as e:
+        # neither the transcription nor the evaluated table was usable (a helper raises, returns a non-layer, ...):
+        # the in-process rigs may not survive such helpers either; the broken tie is reported below
+        if info["ok"]:
+            raise
+        ctx.notes.append("helper rigs aborted on helpers the translator could not use: %s: %s" % (type(e).__name__, e))
     # ---- stack shapes
     cases = gen_cases(ctx)
     mouts = model.call_many("run_scenario", [enc_scenario(c, rev_default) for c in cases]) if model else None
@@ -1116,7 +1140,15 @@ def run(ctx):
 def replay(ctx, data):
     case = data["case"]
     rc = 0
-    if "helper" in case:
+    if "helper_calls" in case:
+        return stack_eval.replay_history(REPO, case, "C18", ctx.scratch)
+    if "helper" in case and "syntactic" in case:
+        _text, info = c18_layers.analyse(scratch=ctx.scratch)
+        print("translator path now:", info["path"])
+        for name, c in info["tie_problems"]:
+            print("still differs:", json.dumps(c)[:600])
+            rc = 1
+    elif "helper" in case:
         from yowsup.stacks import YowStackBuilder
         from yowsup.layers import YowLayer
         h = case["helper"]
